@@ -68,6 +68,8 @@ func runC14(r *vhlib.Run) {
 	// lifecycle histories of flate.Reader (Read / Close / Reset in any order over scripted sources)
 	// against the implementation-level model, per call (Flate/ImplLife.v)
 	wfllife(r)
+	// lifecycle histories of bzip2.Reader against the implementation-level model, per call (Bzip2/ImplLife.v)
+	wbzlife(r)
 	// meta.Reader itself against its implementation-level model, per call (Meta/ReaderImpl.v)
 	runWMETAR(r)
 	// bzip2.Reader with Reset between streams against its implementation-level model (Bzip2/Impl.v)
@@ -311,44 +313,62 @@ func runC14(r *vhlib.Run) {
 			{"badflush", func(w wrt) { w.Flush(7) }},
 			{"close", func(w wrt) { w.Close() }},
 		}
-		for _, target := range payloads {
-			var fb bytes.Buffer
-			fw := wc.New(&fb)
-			fw.Write(target)
-			ferr := fw.Close()
-			fin, fout := fw.Offsets()
-			for faulty := 0; faulty < 3; faulty++ {
-				for a1 := range acts {
-					for a2 := range acts {
-						var first io.Writer = &bytes.Buffer{}
-						switch faulty {
-						case 1:
-							first = &faultSink{At: rng.Intn(30), Kind: rng.Intn(2)}
-						case 2:
-							// the first destination fails at once, having accepted nothing
-							first = &faultSink{At: 0, Kind: 0}
-						}
-						w := wc.New(first)
-						pan := ""
-						func() {
-							defer func() {
-								if p := recover(); p != nil {
-									pan = fmt.Sprint(p)
-								}
+		// the stream written after the Reset: one Write and Close; Close alone (no Write call at all:
+		// whatever is set up lazily on the first Write is never set up); split Writes with a Flush
+		posts := []struct {
+			Name string
+			Do   func(w wrt, target []byte) error
+		}{
+			{"write,close", func(w wrt, target []byte) error { w.Write(target); return w.Close() }},
+			{"close", func(w wrt, target []byte) error { return w.Close() }},
+			{"write-halves,flush,close", func(w wrt, target []byte) error {
+				w.Write(target[:len(target)/2])
+				w.Flush(1)
+				w.Write(target[len(target)/2:])
+				return w.Close()
+			}},
+		}
+		for ti, target := range payloads {
+			for pi, post := range posts {
+				if pi > 0 && ti == 2 && r.Quick() {
+					continue
+				}
+				var fb bytes.Buffer
+				fw := wc.New(&fb)
+				ferr := post.Do(fw, target)
+				fin, fout := fw.Offsets()
+				for faulty := 0; faulty < 3; faulty++ {
+					for a1 := range acts {
+						for a2 := range acts {
+							var first io.Writer = &bytes.Buffer{}
+							switch faulty {
+							case 1:
+								first = &faultSink{At: rng.Intn(30), Kind: rng.Intn(2)}
+							case 2:
+								// the first destination fails at once, having accepted nothing
+								first = &faultSink{At: 0, Kind: 0}
+							}
+							w := wc.New(first)
+							pan := ""
+							func() {
+								defer func() {
+									if p := recover(); p != nil {
+										pan = fmt.Sprint(p)
+									}
+								}()
+								acts[a1].Do(w)
+								acts[a2].Do(w)
 							}()
-							acts[a1].Do(w)
-							acts[a2].Do(w)
-						}()
-						var gb bytes.Buffer
-						w.Reset(&gb)
-						w.Write(target)
-						gerr := w.Close()
-						gin, gout := w.Offsets()
-						r.Eval("writer:"+wc.Name, true, []byte(fmt.Sprint(wc.Name, a1, a2, faulty, len(target))))
-						if pan != "" || !bytes.Equal(gb.Bytes(), fb.Bytes()) || vhlib.ErrClass(gerr) != vhlib.ErrClass(ferr) || gin != fin || gout != fout {
-							r.Violate("reset-not-fresh", fmt.Sprintf("%s.Writer: after %s,%s (faulty sink: %v) + Reset: %d bytes err=%v in=%d out=%d; fresh: %d bytes err=%v in=%d out=%d %s",
-								wc.Name, acts[a1].Name, acts[a2].Name, faulty > 0, gb.Len(), gerr, gin, gout, fb.Len(), ferr, fin, fout, pan),
-								map[string]interface{}{"type": wc.Name + ".Writer", "history": []string{acts[a1].Name, acts[a2].Name}, "faulty_first_sink": faulty, "payload": vhlib.Hex(target)})
+							var gb bytes.Buffer
+							w.Reset(&gb)
+							gerr := post.Do(w, target)
+							gin, gout := w.Offsets()
+							r.Eval("writer:"+wc.Name, true, []byte(fmt.Sprint(wc.Name, a1, a2, faulty, len(target))))
+							if pan != "" || !bytes.Equal(gb.Bytes(), fb.Bytes()) || vhlib.ErrClass(gerr) != vhlib.ErrClass(ferr) || gin != fin || gout != fout {
+								r.Violate("reset-not-fresh", fmt.Sprintf("%s.Writer: after %s,%s (faulty sink: %v) + Reset + %s: %d bytes err=%v in=%d out=%d; fresh: %d bytes err=%v in=%d out=%d %s",
+									wc.Name, acts[a1].Name, acts[a2].Name, faulty > 0, post.Name, gb.Len(), gerr, gin, gout, fb.Len(), ferr, fin, fout, pan),
+									map[string]interface{}{"type": wc.Name + ".Writer", "history": []string{acts[a1].Name, acts[a2].Name}, "after_reset": post.Name, "faulty_first_sink": faulty, "payload": vhlib.Hex(target)})
+							}
 						}
 					}
 				}
